@@ -36,7 +36,7 @@ Fixpoint plain (v : pyval) : bool :=
   | PInt _ | PBool _ | PFloat _ | PNumLike _ | PStr _ | PNone => true
   | PBytes bs => all_bytes bs
   | PList l => forallb plain l
-  | PCInst _ _ _ | PStruct _ _ | PArr _ _ _ | PSArr _ _ _ _ => false
+  | PCInst _ _ _ | PCArr _ _ _ _ | PStruct _ _ | PArr _ _ _ | PSArr _ _ _ _ => false
   end.
 
 (* ApiReachable: from the zero message by validated assignments (any leaf, any key, any plain value) *)
